@@ -259,6 +259,8 @@ def gen_history(ctx, n):
            [f'0b{rbits(rng.randint(1, 20))}, 0x{rng.getrandbits(8):02x}' for _ in range(S // 4)] + \
            [f'uint:{i}={i % 2}, int:{i + 1}=-1' for i in range(1, 340)] + \
            [f'e4m3mxfp={v}' for v in (1000, 500, -1000, 3.0, 1e9, 448, 449.0)] + [f'e5m2mxfp={v}' for v in (1e6, -1e6, 2.0, 57344, 60000.0)] + \
+           [x for i in range(24) for lit in [f'0x{i:02x}c', f'0b{i:05b}', f'0o{i:02o}'][i % 3:i % 3 + 1]
+            for x in (lit, f'bits={lit}, 0b1', lit, f'bits={lit}', f'0b0, bits={lit}, {lit}', lit)] + \
            [f'ue={i}' for i in range(6)] + [f'se={i}' for i in range(-3, 3)] + [f'uie={i}' for i in range(3)] + [f'sie={i}' for i in (-2, 1)] + \
            ['0b1, 0x2', 'float32=1.5', 'u 8=3', 'uint:8=3', 'u8=3', 'UINT:8=3', ' uint : 8 = 3 ', 'int:4=-1', 'hex:8=ff', 'bool=1',
             'floatle:16=0.5', '2*u4=3', 'pad:7', 'bfloat=1.0', 'intle:16=-2', 'bytes:1=a', 'uint:0=0', 'nonsense=1', 'u8=256', '0xzz', '']
